@@ -1200,11 +1200,19 @@ package mqtt
 //@ ensures[C15,C02] err == nil && !has(m.perKey, key)
 //@ ensures[C15,C02] forall(k, k != key ==> has(m.perKey, k) == old(has(m.perKey, k)) && same(at(m.perKey, k), old(at(m.perKey, k))))
 
-// (volatile.Save is not under contract: its two range loops need the prefix sums of the buffer lengths to be
-// monotone, a lemma by induction the engine does not have; the Persistence interface contract stands for it.)
-
 // List: every key handed out is present (a private slice); that every present key is handed out is not stated here.
 //@ func mqtt.(*volatile).List -> keys, err
 //@ loop 1: invariant fresh(keys) && forall(i, 0, len(keys), has(m.perKey, keys[i]))
 //@ ensures[C15,C02] err == nil && fresh(keys) && forall(i, 0, len(keys), has(m.perKey, keys[i]))
 //@ ensures[C15,C02] forall(k, has(m.perKey, k) == old(has(m.perKey, k)) && same(at(m.perKey, k), old(at(m.perKey, k))))
+
+// Save: a private slice as long as the flattened value replaces the key's entry; other keys stay.
+// (The total length fits a slice: make panics otherwise. That the copy is byte-exact is not stated here.)
+//@ func mqtt.(*volatile).Save -> err
+//@ modifies region("map.map[uint][]byte"), region("map.len")
+//@ requires m.perKey != nil && flatlen(value) <= 281474976710656
+//@ loop[reveal=flatlen_] 1: invariant n == flatlenk(value, rangeindex + 1)
+//@ loop 2: modifies elems(bytes)
+//@ loop[reveal=flatlen_] 2: invariant i == flatlenk(value, rangeindex + 1) && len(bytes) == flatlen(value) && fresh(bytes) && off(bytes) == 0
+//@ ensures[C15,C02] err == nil && has(m.perKey, key) && len(at(m.perKey, key)) == old(flatlen(value)) && fresh(at(m.perKey, key))
+//@ ensures[C15,C02] forall(k, k != key ==> has(m.perKey, k) == old(has(m.perKey, k)) && same(at(m.perKey, k), old(at(m.perKey, k))))
